@@ -25,7 +25,7 @@ variable {α : Type} [Add α] [Sub α] [Mul α] [Div α] [Neg α] [NatCast α] [
   [DecidableLT α] [DecidableLE α] [Transc α]
 
 /-- no new in-line amplifier where no fibre follows a fibre -/
-theorem addInline_fixpoint (l : List (Elem α)) (h : NoAdjFib l) : addInline l = l := by
+theorem addInline_fixpoint (m : Bool) (l : List (Elem α)) (h : NoAdjFib l) : addInline m l = l := by
   induction l with
   | nil => simp [addInline]
   | cons x rest ih =>
@@ -85,7 +85,7 @@ theorem addMissing_fixpoint (c : SplitCfg α) (ch : Chain α)
         have := (junction_exceptions ch.src ch.dst m ch.line).2.2.1 e t hl (hhead hk e t hl)
         rw [hl] at this; exact this
   rw [hb]
-  exact addInline_fixpoint _ hadj
+  exact addInline_fixpoint _ _ hadj
 
 end
 
